@@ -309,6 +309,7 @@ func (e *Engine) dischargePath(fn *ssa.Function, po *pathOutcome, pathNo int, w 
 		ch  chan Verdict
 		be  int
 		sub []InputVar
+		idx int
 	}
 	dump := func(ob *Obligation, be Backend, q *Query, n int) {
 		if d := os.Getenv("VERIF_DUMP"); d != "" {
@@ -319,22 +320,29 @@ func (e *Engine) dischargePath(fn *ssa.Function, po *pathOutcome, pathNo int, w 
 	submit := func(p *pending) bool {
 		for ; p.be < len(bes); p.be++ {
 			be := bes[p.be]
-			q := BuildQuery(x.ts, be, p.ob.ID, coneOfInfluence(p.ob.Path, p.ob.Cond), p.ob.Cond, nil)
+			cone := coneOfInfluence(p.ob.Path, p.ob.Cond)
+			q := BuildQuery(x.ts, be, p.ob.ID, cone, p.ob.Cond, nil, 0)
 			if q.Err != nil {
 				p.r.Note += fmt.Sprintf("[%s lowering: %v] ", be, q.Err)
 				continue
 			}
 			p.r.Backend = be.String()
 			p.r.Sample = q.Script
-			dump(p.ob, be, q, len(res))
-			p.ch = opts.Pool.Submit(q.Script, nil, budgets)
+			dump(p.ob, be, q, p.idx)
+			scripts := []string{q.Script}
+			if be == BackendINT {
+				if q1 := BuildQuery(x.ts, be, p.ob.ID, cone, p.ob.Cond, nil, 1); q1.Err == nil && q1.Script != q.Script {
+					scripts = append(scripts, q1.Script)
+				}
+			}
+			p.ch = opts.Pool.Submit(scripts, nil, budgets)
 			return true
 		}
 		return false
 	}
 	var pend []*pending
 	for _, ob := range obls {
-		p := &pending{ob: ob, r: OblResult{Harness: fn.Name(), ID: ob.ID, Kind: ob.Kind, Where: ob.Where, Path: pathNo}}
+		p := &pending{idx: len(pend), ob: ob, r: OblResult{Harness: fn.Name(), ID: ob.ID, Kind: ob.Kind, Where: ob.Where, Path: pathNo}}
 		all := append(append([]*Term(nil), ob.Path...), ob.Cond)
 		p.r.Symbolic = hasSymbolic(all)
 		if ob.Cond != nil && ob.Cond.IsTrue() && ob.Expect != "sat" {
@@ -377,8 +385,8 @@ func (e *Engine) dischargePath(fn *ssa.Function, po *pathOutcome, pathNo int, w 
 		case verdict.Result == "sat":
 			// obtain a model of the complete query (all assumptions, all inputs)
 			be := bes[p.be]
-			q := BuildQuery(x.ts, be, ob.ID, ob.Path, ob.Cond, x.inputs)
-			full := <-opts.Pool.Submit(q.Script, q.Vars, budgets)
+			q := BuildQuery(x.ts, be, ob.ID, ob.Path, ob.Cond, x.inputs, verdict.Profile)
+			full := <-opts.Pool.Submit([]string{q.Script}, q.Vars, budgets)
 			r.Verdict = "unconfirmed"
 			if full.Result == "sat" {
 				r.Model = full.Model
